@@ -2,6 +2,8 @@ package main
 
 import (
 	"go/token"
+	"go/types"
+	"sort"
 	"strings"
 
 	"golang.org/x/tools/go/ssa"
@@ -270,6 +272,98 @@ func init() {
 					}
 					r.Check(dup == "", fname(fn), name+" counted at one layer", fn.Pos(), "no callee counts the same outcome again", "%s is called here and again inside the callee %s: one failed call is counted twice, so a single failure can block an endpoint", name, dup)
 				}
+			}
+		}})
+
+	register(&Rule{ID: "C15.R6", Props: []string{"C15"}, Min: 2, Needs: NeedMain,
+		Doc: "reinstatement clears the failure history: every failure/send counter that a blocking decision (a guard dominating status=false) reads is reset to 0 by the function that puts the adapter back (stores status=true after construction), so an endpoint is never blocked again for failures it had before it was reinstated",
+		Run: func(r *R) {
+			sp := r.w.Pkg("tars")
+			counters := map[string]bool{}
+			for _, fn := range r.w.Funcs(sp) {
+				eachInstr(fn, func(in ssa.Instruction) {
+					st, ok := in.(*ssa.Store)
+					if !ok || !isFieldOf(st.Addr, adapterT, "status") {
+						return
+					}
+					if b, isB := constBool(st.Val); !isB || b {
+						return
+					}
+					var walk func(v ssa.Value, d int)
+					walk = func(v ssa.Value, d int) {
+						if d > 6 || v == nil {
+							return
+						}
+						if owner, name, _, ok := loadedField(v); ok && owner == adapterT {
+							if bk := basicKind(v.Type()); bk == types.Int32 || bk == types.Int64 {
+								if strings.HasSuffix(strings.ToLower(name), "count") {
+									counters[name] = true
+								}
+							}
+							return
+						}
+						switch x := v.(type) {
+						case *ssa.BinOp:
+							walk(x.X, d+1)
+							walk(x.Y, d+1)
+						case *ssa.Convert:
+							walk(x.X, d+1)
+						case *ssa.Call:
+							for _, a := range x.Call.Args {
+								walk(a, d+1)
+							}
+						}
+					}
+					for _, f := range facts(in.Block()) {
+						if c, okc := normFact(f); okc {
+							walk(c.X, 0)
+							walk(c.Y, 0)
+						}
+					}
+				})
+			}
+			// reinstatement function: stores status=true and is a method (not the constructor)
+			var reinst *ssa.Function
+			for _, fn := range r.w.Funcs(sp) {
+				if fn.Signature.Recv() == nil || typeID(fn.Signature.Recv().Type()) != adapterT {
+					continue
+				}
+				eachInstr(fn, func(in ssa.Instruction) {
+					if st, ok := in.(*ssa.Store); ok && isFieldOf(st.Addr, adapterT, "status") {
+						if b, isB := constBool(st.Val); isB && b {
+							reinst = fn
+						}
+					}
+				})
+			}
+			if reinst == nil || len(counters) == 0 {
+				r.Bad("tars", "reinstatement", token.NoPos, "reinstatement function or blocking counters not found (%d counters)", len(counters))
+				return
+			}
+			zeroed := map[string]bool{}
+			eachInstr(reinst, func(in ssa.Instruction) {
+				if st, ok := in.(*ssa.Store); ok {
+					if fv, _, ok := fieldAddrOf(st.Addr); ok {
+						if k, isK := constInt(st.Val); isK && k == 0 {
+							zeroed[fv.Name()] = true
+						}
+					}
+				}
+				if c := callCommon(in); c != nil && (strings.HasPrefix(atomicOp(c), "Swap") || strings.HasPrefix(atomicOp(c), "Store")) {
+					if fv, _, ok := fieldAddrOf(c.Args[0]); ok {
+						if k, isK := constInt(c.Args[1]); isK && k == 0 {
+							zeroed[fv.Name()] = true
+						}
+					}
+				}
+			})
+			var names []string
+			for n := range counters {
+				names = append(names, n)
+			}
+			sort.Strings(names)
+			for _, n := range names {
+				r.Check(zeroed[n], fname(reinst), "clears "+n, reinst.Pos(), "%s = 0 on reinstatement", "%s is read by a blocking decision but not reset when the endpoint is reinstated: stale failures from the previous outage block it again although every call since reinstatement succeeded", n)
 			}
 		}})
 
